@@ -196,7 +196,9 @@ class C14(Prop):
             o = self.rand_opts(rng, header, ncols, wild)
             base = {"header": header, "rows": rows, "wenc": rng.choice(["utf-8", "utf-8", "utf-8-sig"]), "eol": rng.choice(["\n", "\r\n"]),
                     "d": d, "o": o}
-            out.append({"stream": "rt", "tag": "rnd:rt" + (":wild" if wild else ""), "input": base})
+            if base["wenc"] == "utf-8" and rng.random() < 0.3:
+                base["wdef"] = True
+            out.append({"stream": "rt", "tag": "rnd:rt" + (":wild" if wild else "") + (":wdef" if base.get("wdef") else ""), "input": base})
             if rng.random() < 0.35:
                 sib = dict(base)
                 k = rng.randrange(3)
@@ -204,6 +206,7 @@ class C14(Prop):
                     sib["eol"] = "\r\n" if base["eol"] == "\n" else "\n"
                 elif k == 1:
                     sib["wenc"] = "utf-8-sig" if base["wenc"] == "utf-8" else "utf-8"
+                    sib.pop("wdef", None)
                 else:
                     o2 = dict(o)
                     o2["rm"] = "b" if o["rm"] == "t" else "t"
@@ -218,8 +221,10 @@ class C14(Prop):
         for _ in range(150 if quick else 3000):
             d = rng.choice(DELIMS)
             header, rows = self.rand_table(rng, d, True)
-            out.append({"stream": "save", "tag": "rnd:save", "input": {"header": header, "rows": rows, "wenc": rng.choice(ENCODINGS),
-                                                                      "eol": rng.choice(["\n", "\r\n"]), "d": d}})
+            we = rng.choice(ENCODINGS)
+            out.append({"stream": "save", "tag": "rnd:save", "input": {"header": header, "rows": rows, "wenc": we,
+                                                                      "eol": rng.choice(["\n", "\r\n"]), "d": d,
+                                                                      "wdef": we == "utf-8" and rng.random() < 0.5}})
         # ---- load_csv on arbitrary files -------------------------------------------------------------
         for _ in range(400 if quick else 8000):
             d = rng.choice(DELIMS)
@@ -327,7 +332,11 @@ class C14(Prop):
                     with open(path, "wb") as f:
                         f.write(s2b(i["disk"]))
                 return {"ok": self.canon_records(list(self.load_csv(path, **self.load_kwargs(i))))}
-            self.save_csv(path, i["rows"], i["header"], encoding=i["wenc"], EOL=i["eol"], delimiter=i["d"])
+            if i.get("wdef"):
+                # the writer's own default encoding (utf-8, no byte-order mark): the argument is left out
+                self.save_csv(path, i["rows"], i["header"], EOL=i["eol"], delimiter=i["d"])
+            else:
+                self.save_csv(path, i["rows"], i["header"], encoding=i["wenc"], EOL=i["eol"], delimiter=i["d"])
             with open(path, "rb") as f:
                 data = f.read()
             if st == "save":
